@@ -152,6 +152,9 @@ func (t *c03) udpChain(r *rand.Rand) {
 		dip, _ = e.IP4(r)
 	}
 	pl := gen.RandBytes(r, payloadLen(r, maxPl))
+	if len(pl) == 0 && r.Intn(2) == 0 {
+		pl = nil // "nothing to send" is often the zero value of a []byte: a payload of length zero like any other
+	}
 	mode := r.Intn(2) // 0: AppendPayload at udp level, 1: SetPayload with payload written in place
 	cs := map[string]any{"chain": "ether/ip/udp", "v6": v6, "srcmac": src.String(), "dstmac": dst.String(), "srcip": sip.String(), "dstip": dip.String(),
 		"sport": sp, "dport": dp, "ttl": ttl, "payload_len": len(pl), "mode": mode}
